@@ -68,7 +68,11 @@ def gen_config(rng, tier):
             'repeat_max': rng.choice([1, 3, 10, 50]),
             'w': {'hopen': rng.choice([2, 4, 6]), 'hfail': rng.choice([0, 1, 2]),
                   'hmf': rng.choice([0, 1]), 'register': rng.choice([0, 1, 2]),
-                  'collect': rng.choice([0, 1]), 'probe2': rng.choice([1, 2])},
+                  'collect': rng.choice([0, 1]), 'probe2': rng.choice([1, 2]),
+                  # the pool is not static: a path gets other content (in place,
+                  # or deleted and created again)
+                  'hrewrite': rng.choice([0, 0, 1, 2])},
+            'pathlike': rng.choice([0.0, 0.0, 0.3]),
             'clock': 'steady', 'max_steps': 400}
 
 
@@ -378,7 +382,8 @@ def gen_op(rng, st):
     st.nsteps += 1
     fids = sorted(st.files)
     w = c['w']
-    names = [k for k in ['hopen', 'hfail', 'hmf', 'register', 'collect'] if w.get(k, 0) > 0]
+    names = [k for k in ['hopen', 'hfail', 'hmf', 'register', 'collect', 'hrewrite']
+             if w.get(k, 0) > 0]
     tot = sum(w[k] for k in names)
     x = rng.random() * tot
     name = names[-1]
@@ -402,6 +407,13 @@ def gen_op(rng, st):
             op['kw'] = rng.choice([{'endian': 'little'}, {'endian': 'big'},
                                    {'rows': 2, 'cols': 3}, {'mode': 'r'},
                                    {'P_ALP': 30.0, 'GDTYP': 2}, {'encoding': 'latin1'}])
+    elif name == 'hrewrite':
+        fid = rng.choice(fids)
+        kind = rng.choice([k for k in c['kinds'] if k != st.files[fid]['kind']] or c['kinds'])
+        op = {'op': 'hrewrite', 'fid': fid, 'kind': kind, 'spec': _mkspec(rng, kind),
+              'how': rng.choice(['inplace', 'recreate']),
+              # the old content was opened (and the handle dropped) just before
+              'opened_before': rng.random() < 0.7}
     elif name == 'hfail':
         op = {'op': 'hfail', 'what': rng.choice(['missing', 'missing.uamiv', 'missing.nc',
                                                    'dir']),
@@ -432,6 +444,8 @@ def gen_op(rng, st):
     k = min(len(fids), c['probes_per_step'])
     for fid in rng.sample(fids, k):
         st.pending.append({'op': 'probe', 'fid': fid})
+        if rng.random() < c.get('pathlike', 0.0):
+            st.pending[-1]['aspath'] = True
     if rng.random() < 0.25 * w.get('probe2', 1):
         cands = [f for f in fids if KINDS[st.files[f]['kind']][2]
                  and st.files[f]['variant'] != 'mislead']
@@ -445,8 +459,8 @@ def _registry_len():
     return len(_readers)
 
 
-def _expected(st, path, fmt=None):
-    key = (path, fmt, json.dumps(st.regs, sort_keys=True))
+def _expected(st, path, fmt=None, ver=0):
+    key = (path, ver, fmt, json.dumps(st.regs, sort_keys=True))
     if key in st.memo:
         st.stats['ref_memo_hits'] += 1
         return st.memo[key]
@@ -495,6 +509,28 @@ def apply(st, op):
         w.fault('history_open_' + op['how'], op.get('repeat', 1))
         obs['note'] = notes
         st.stats['nontrivial'] = True
+    elif o == 'hrewrite':
+        f = st.files.get(op['fid'])
+        if f is None:
+            return {'note': 'noop'}
+        if op.get('opened_before'):
+            try:
+                pnc.pncopen(f['path'])
+            except BaseException:
+                pass
+        # dropped readers of the old content release their maps first
+        seams.GC.collect(2)
+        if op['how'] == 'recreate':
+            os.unlink(f['path'])
+        _write(op['kind'], op['spec'], f['path'])
+        suffix = f['name'].split('.', 1)[1] if '.' in f['name'] else None
+        f['kind'] = op['kind']
+        f['variant'] = 'none' if suffix is None else (
+            'conv' if suffix in KINDS[op['kind']][0] else 'mislead')
+        f['ver'] = f.get('ver', 0) + 1
+        st.stats['rewrites'] = st.stats.get('rewrites', 0) + 1
+        w.fault('pool_file_rewritten_' + op['how'])
+        st.stats['nontrivial'] = True
     elif o == 'hfail':
         p = w.path(op['what']) if op['what'] != 'dir' else w.root
         try:
@@ -533,8 +569,13 @@ def apply(st, op):
             return {'note': 'noop'}
         st.stats['probes'] += 1
         st.stats['evaluations'] += 1
-        got = observe(f['path'])
-        exp = _expected(st, f['path'])
+        if op.get('aspath'):
+            import pathlib
+            got = observe(pathlib.Path(f['path']))
+            w.probe('probe_with_pathlike_argument')
+        else:
+            got = observe(f['path'])
+        exp = _expected(st, f['path'], ver=f.get('ver', 0))
         obs['got'] = got
         k = '%s/%s->%s' % (f['kind'], f['variant'], got.get('cls', '?').split('.')[-1])
         st.stats['answers'][k] = st.stats['answers'].get(k, 0) + 1
